@@ -335,6 +335,11 @@ class C13(Engine):
                     continue
                 if rel.endswith(".sqlite"):
                     continue  # judged through SQL below
+                if c is None and op == "gc_run" and self._gc_candidate(case, rel):
+                    # WHICH unlocked files the collector discards is C14's subject (and a file it could not read just now
+                    # does not count for it): a whole candidate file gone is its complete new version; a damaged one never is
+                    probes["gc_selection_changed_by_fault"] = probes.get("gc_selection_changed_by_fault", 0) + 1
+                    continue
                 role = "current" if "xonsh-s0.json" in rel else "other"
                 was_ok = self._loadable_bytes(old[rel])
                 V.append(
@@ -402,6 +407,14 @@ class C13(Engine):
         return res
 
     # ------------------------------------------------------------------ helpers
+    @staticmethod
+    def _gc_candidate(case, rel):
+        base = os.path.basename(rel)
+        for f in case["files"]:
+            if base == f"xonsh-{f['sid']}.json":
+                return (not f["locked"]) or f["ts0"] < case["boot"]
+        return False
+
     @staticmethod
     def _is_history_file(rel):
         b = os.path.basename(rel)
